@@ -2,8 +2,9 @@
    Proofs_*.v.  Model: C14/Model.v (from middleware/resolver/dnssec/*.go);
    constants and tables: Gen/C14.v (regenerated from /repo on every run). *)
 From Coq Require Import Sorting.Sorted Sorting.Permutation.
+From Sdns Require C02.Model C02.Proofs_Gen.
 From Sdns Require Import Common.Base Common.GoList Gen.C14 C14.Model
-  C14.Proofs_rsa C14.Proofs_b64 C14.Proofs_keytag C14.Proofs_rsamd5 C14.Proofs_canon C14.Proofs_verify C14.Proofs_offset C14.Proofs_walk C14.Proofs_loops.
+  C14.Proofs_rsa C14.Proofs_b64 C14.Proofs_keytag C14.Proofs_rsamd5 C14.Proofs_canon C14.Proofs_verify C14.Proofs_offset C14.Proofs_walk C14.Proofs_loops C14.Proofs_c02.
 Open Scope N_scope.
 
 (* (1) Key tag.  For every DNSKEY of every algorithm but RSAMD5 and every key
@@ -197,9 +198,9 @@ Print Assumptions authority_ns_record_is_ignored.
 (* ... and the only records of the zone that may go unsigned are CNAMEs that are exactly the RFC 6672
    substitution under a DNAME owning a proper ancestor of the CNAME owner *)
 Theorem synthesised_cname_is_the_dname_substitution : forall owner target dnames,
-  is_synthesized_cname owner target dnames = true <->
+  is_synthesized_cname_spec owner target dnames = true <->
   exists d, In d dnames /\ 0 < count_label (fst d) /\ count_label (fst d) < count_label owner /\
-    compare_suffix (fst d) owner = count_label (fst d) /\
+    compare_suffix_spec (fst d) owner = count_label (fst d) /\
     equal_fold (fqdn (firstn (N.to_nat (prev_label owner (count_label (fst d)))) owner ++ snd d)) (fqdn target) = true.
 Proof. exact synthesized_cname_iff. Qed.
 Print Assumptions synthesised_cname_is_the_dname_substitution.
@@ -296,3 +297,15 @@ Theorem name_in_zone_is_model : forall fuel name zone, (length name < fuel)%nat 
   go_NameInZone fuel name zone = Some (name_in_zone name zone).
 Proof. exact gen_name_in_zone. Qed.
 Print Assumptions name_in_zone_is_model.
+
+(* internal/dnsname.CompareSuffix: the model's compare_suffix IS the translated Go function (with dns.CountLabel,
+   dns.NextLabel and equalFold translated from the module cache) run with a budget it cannot exhaust; C02's
+   translation of the same source is the same term, so C02's theorem applies: on the presentation strings of
+   escape-free names it counts the labels the two names share from the root, case-insensitively.  (For names
+   with escapes the tie is CaseSuffix: code = translation = hand specification on every generated pair.) *)
+Theorem compare_suffix_counts_shared_labels : forall a b,
+  C02.Proofs_Gen.plain_name a -> C02.Proofs_Gen.plain_name b ->
+  compare_suffix (C02.Proofs_Gen.present a) (C02.Proofs_Gen.present b) =
+  N.of_nat (C02.Model.lcp (C02.Model.canon a) (C02.Model.canon b)).
+Proof. exact compare_suffix_plain_names. Qed.
+Print Assumptions compare_suffix_counts_shared_labels.
